@@ -13,6 +13,7 @@ mod report;
 mod sched;
 mod subjects;
 mod types;
+mod xcheck;
 
 use engine::Ctx;
 
